@@ -225,8 +225,19 @@ def rule_r4(ctx):
     if not ok_member:
         ctx.r.violation(rid, key_of(f, None, "no-membership-test"), "no loop refuses transfer codings other than 'chunked'", f.loc(s.ast))
     # (iii) exactly one
+    def _counts_chunked(c):
+        if dotted(c.func) == "len":
+            return True
+        if dotted(c.func) == lv + ".count" and len(c.args) == 1 and isinstance(c.args[0], ast.Constant) and c.args[0].value == "chunked":
+            return True
+        # sum(1 for e in L if e == 'chunked')
+        if dotted(c.func) == "sum" and len(c.args) == 1 and isinstance(c.args[0], (ast.GeneratorExp, ast.ListComp)) and len(c.args[0].generators) == 1:
+            ge = c.args[0]
+            gen = ge.generators[0]
+            return isinstance(ge.elt, ast.Constant) and ge.elt.value == 1 and dotted(gen.iter) == lv and len(gen.ifs) == 1 and "'chunked'" in norm(gen.ifs[0])
+        return False
     cnt = [(t, pol) for (t, pol) in guards_of(g, s) if isinstance(t, ast.Compare) and isinstance(t.left, ast.Call)
-           and (dotted(t.left.func) == "len" or (dotted(t.left.func) == lv + ".count" and len(t.left.args) == 1 and isinstance(t.left.args[0], ast.Constant) and t.left.args[0].value == "chunked"))
+           and _counts_chunked(t.left)
            and isinstance(t.comparators[0], ast.Constant) and t.comparators[0].value == 1]
     okc = any((isinstance(t.ops[0], ast.NotEq) and not pol) or (isinstance(t.ops[0], ast.Eq) and pol) for (t, pol) in cnt)
     whole = any(pol and isinstance(t, ast.Compare) and dotted(t.left) == lv and isinstance(t.ops[0], ast.Eq) for (t, pol) in guards_of(g, s))
@@ -350,8 +361,12 @@ def rule_r7(ctx, rid="C01.R7"):
             if eff:
                 ok = True
     # the read happens before the ladder
-    vt = [n for n in g.nodes if n.kind == "test" and isinstance(n.ast, ast.Compare) and isinstance(n.ast.left, ast.Name) and "version" in n.ast.left.id]
-    before = all(any(g.dominates(r, v) for r in reads if r.kind == "test") for v in vt) if vt else False
+    vt = [n for n in g.nodes if n.kind == "test" and isinstance(n.ast, ast.Compare) and (dotted(n.ast.left) or "").split(".")[-1] == "version"]
+    if not vt:
+        # the version decision is not a comparison ladder in this function (e.g. dispatched through a table):
+        # whether the verdict precedes it cannot be read off here
+        raise AnalysisError("build_response_header has no `version == ...` ladder: the place of the close verdict relative to the version decision is not decided")
+    before = all(any(g.dominates(r, v) for r in reads if r.kind == "test") for v in vt)
     if ok and before:
         ctx.r.ok(rid, "close verdict consulted before the version ladder and turned into 'close'", f.loc(reads[0].ast))
     else:
